@@ -249,6 +249,46 @@ CLAIMED = {
                  "is not compared (legitimately batch-dependent). Chains where a record-dropping verb feeds a satisfied head on an endless input are not asserted."),
         "design_ref": "DESIGN.md section 4 C04, section 5",
     },
+    "C18": {
+        "level": "exploration",
+        "technique": "exhaustive enumeration of built-in functions x argument-kind tuples plus Hypothesis-driven structure-aware mutation fuzzing of reader inputs, DSL text and verb arguments through the real CLI, with a crash/hang/silent-failure oracle",
+        "text": ("Seven sub-checks, all with the same oracle: no Go panic / fatal runtime error / stack trace (exit status 2 with a goroutine trace, or death by signal), termination within a guard, "
+                 "bounded output, and a diagnostic on every non-zero exit. (1) every function and operator listed by `mlr help usage-functions-by-class` (266, minus system/exec) applied to every "
+                 "tuple of argument kinds int/float/boolean/empty/string/array/map/function/error/JSON-null/absent: arity 1 over 119 values (boundary ints +-2^63, 10^6, NaN, +-Inf, subnormal, -0.0, "
+                 "60 hostile strings such as lone %, unbalanced regexes, malformed time formats, invalid UTF-8, 5000-char strings, nested and empty collections, function literals of arity 0-3), "
+                 "arity 2 over 23^2 (quick) or 119^2 (thorough) value pairs, arity 3 over 11^3 (a third of them in quick) or 18^3 tuples, variadics at 0-3 arguments; plus 18 indexing/slicing/positional/literal "
+                 "constructs and 25 statement forms (indexed assignment, unset, for loops, emit/emitp/emit1 incl. lashed and by-names, dump/print/tee redirects, conditions, typed locals, op-assignments) with "
+                 "the same operand tuples; 250 calls per invocation with begin/end markers on stderr so that a fatal mlr: error is attributed and the batch resumes. (2) wrong arity: one argument too "
+                 "few/many must give a parse-time error naming the function. (3) 21 reader configurations x 0-3 of 124 main-flag settings x 120 verb chains x 30 writers on documents = valid seeds "
+                 "(written by an independent Python writer) under 0-4 structure-aware mutations (truncate/delete/duplicate/insert/replace/swap at structural bytes, 2-2000 repeated separators, 2-400 "
+                 "nesting tokens, CR/CRLF/BOM/compression/NUL transforms, 70000-byte fields, 3000 repeated lines) or random bytes/text. (4) 36 fixed large documents (1 MiB fields, 10^5 unbalanced "
+                 "brackets/quotes, 400-digit numbers, alias bomb, truncated/oversized gzip, bz2, zlib) x 17 readers x 11 option sets. (5) 55 base programs covering every statement and expression form "
+                 "under 0-4 token-level mutations from a 230-token dictionary, 18 nesting shapes up to depth 3000, oversized tokens, x 21 put/filter modes. (6,7) every verb: a valid baseline under 1-3 "
+                 "edits with 80 hostile values, and the exhaustive verb x documented flag x hostile value grid."),
+        "note": ("Not judged: timeouts of programs that contain while/do/3-part for/func/subr (a programmed loop is not a Miller hang); timeouts on inputs above 64 KiB in the mutation sub-checks (several paths "
+                 "are quadratic or cubic in one record's width or nesting depth: 10^4 duplicate keys take 5 s, JSON objects nested 4000 deep take 70 s to print); count-like arguments above 10^5/10^6 "
+                 "(leftpad width 2^63 is an allocation failure, not a crash). `Internal coding error` exits without the mlr: prefix are counted (labels/notes), not reported. A hang needs one run beyond the "
+                 "guard and two more beyond 120 s. Go-runtime stack exhaustion needs inputs nested > 10^6 deep (5 MB of `[` for JSON, 1 MB of `-` or `(` for the DSL): hand-probed, documented in DESIGN.md, not "
+                 "part of the generated domain (depth caps 400/3000)."),
+        "design_ref": "DESIGN.md section 4 C18, Appendix A",
+    },
+    "C14": {
+        "level": "exploration",
+        "technique": "grammar-directed program generation (Hypothesis) with a differential oracle: an independent Python reference interpreter written from the language reference; plus an exact parse-shape oracle over the documented precedence table and metamorphic relations",
+        "text": ("Type-directed random programs over the covered language: expressions over ints/strings/booleans/maps/arrays with arithmetic, bit, comparison, logical, dot, ternary, ?? operators, indexing with "
+                 "negative aliases, inclusive slices, map/array literals, ~45 builtins incl. apply/select/sort with function literals; statements: typed and untyped declarations (var str num int bool map arr), "
+                 "assignment and op-assignment to locals, fields, ${braced} names, $[expr], positional names/values, $*, oosvars, indexed lvalues with auto-create/auto-deepen/auto-extend and null-gaps, unset, "
+                 "if/elif/else, while, do-while, 3-part for (declared / undeclared / outer variable), single-variable, key-value and 2- and 3-key for loops, break/continue, pattern-action, begin/end, "
+                 "filter, print, dump, emit1, emit/emitp (by names, partial and full split), emitf; 0-3 user functions (plain, typed, recursive with an accumulator, argument-mutating) and a subroutine with early "
+                 "return; deliberate stale reads of out-of-scope names, shadowing declarations, undeclared first assignments, copy-then-mutate sequences, absent right-hand sides, a small share of "
+                 "type-violating assignments and re-declarations (documented fatal errors). Each program runs over 0-6 heterogeneous records as put / put -q / put -S; stdout is compared line by line with "
+                 "the reference interpreter's output; predicted fatals must give a non-zero exit."),
+        "note": ("Underdetermined by the documentation and therefore not generated or not judged (counted in evidence under excluded): the name typeof gives booleans (bool/boolean), re-assignment of a typed parameter "
+                 "with another type, assignment to the key variables of a multi-key loop, modifying the collection a single-variable loop runs over, absent/error inside collection literals, comparisons "
+                 "with absent, emit of maps with leaves at different depths, array index 0, string slices out of bounds. Known finding: fatal errors inside a user-defined function's body become an (error) "
+                 "value. Not covered: tee/redirected output (C20), ENV, regex captures (C15), time functions (C16), positional-name edge cases with collisions, higher-order functions beyond apply/select/sort/any/every/fold/reduce on arrays."),
+        "design_ref": "DESIGN.md section 4 C14, Appendix C",
+    },
 }
 
 NOT_YET = "check not built yet in this session (see DESIGN.md section 8 build order); will be claimed when its sub-checks run"
